@@ -74,8 +74,8 @@ Qed.
 Lemma in_bounds_binary : forall M objs v, in_bounds M objs v -> binary v.
 Proof.
   intros M objs v H. split.
-  - intros s p. specialize (H (X s p)). cbn in H. lia.
-  - intro j. specialize (H (Closure j)). cbn in H. lia.
+  - intros s p. specialize (H (X s p) eq_refl). cbn in H. lia.
+  - intro j. specialize (H (Closure j) eq_refl). cbn in H. lia.
 Qed.
 
 Lemma all_sat_app_l : forall v a b, all_sat v (a ++ b) -> all_sat v a.
